@@ -13,7 +13,7 @@ OTHER_FILES = ("C04.v", "Gaps.v")
 def classify(case):
     q = case.get("req", {})
     s = case.get("spec", {})
-    return "auth=%s,pa=%s,method=%s,upstream=%s" % (q.get("auth_tag"), q.get("pa_tag"), q.get("method"), s.get("upstream"))
+    return "method=%s,upstream=%s" % ("CONNECT" if q.get("method") == "CONNECT" else "plain", s.get("upstream"))
 
 
 def failure_key(case):
